@@ -105,7 +105,9 @@ class Morphy:
             for word in wordnet.words():
                 pos = word.pos
                 pos_exc = exceptions[pos]
-                lemma, *others = word.forms()
+                # plain strings: Form objects with different scripts
+                # are unequal even when the strings are the same
+                lemma, *others = map(str, word.forms())
                 # store every lemma whether it has other forms or not
                 all_lemmas[pos].add(lemma)
                 # those with other forms map to the original lemmas
